@@ -1504,10 +1504,14 @@ class Parameters:
         # Honestly, this function hasn't been tested thoroughly. But it can't be too harmful as its
         # bounded fairly heavily in how much it can adjust feed and thoroughly tested in terms of different scenarios.
 
-        potential_biofuel_increase = (
-            np.minimum(biofuel + increase, max_biofuel) - biofuel
+        # (a series that is already at or above its maximum has no room: its potential increase is zero, not negative;
+        # a negative potential made the proportional split below hand the other series more than its own room)
+        potential_biofuel_increase = np.maximum(
+            0, np.minimum(biofuel + increase, max_biofuel) - biofuel
         )
-        potential_feed_increase = np.minimum(feed + increase, max_feed) - feed
+        potential_feed_increase = np.maximum(
+            0, np.minimum(feed + increase, max_feed) - feed
+        )
 
         # Check combined increase against total crops available
         total_potential_increase = potential_biofuel_increase + potential_feed_increase
